@@ -9,6 +9,15 @@ use cert::{key_pair_algorithm, CertificateBuilder, KeyPairAlgorithm};
 fn main() -> anyhow::Result<()> {
 	let opts = options().run();
 
+	// Each base name `X` produces `X.pem` and `X.key.pem`: refuse base names whose output
+	// files would overwrite each other (e.g. `X` and `X.key` both need `X.key.pem`).
+	let (cert, ca) = (&opts.cert_file_name, &opts.ca_file_name);
+	if cert == ca || *cert == format!("{ca}.key") || *ca == format!("{cert}.key") {
+		anyhow::bail!(
+			"--cert-file-name `{cert}` and --ca-file-name `{ca}` would write to the same file"
+		);
+	}
+
 	let ca = CertificateBuilder::new()
 		.signature_algorithm(opts.keypair_algorithm)?
 		.certificate_authority()
